@@ -16,9 +16,55 @@ type astNode = ast.Node
 
 // nodeText prints a statement or expression on one line.
 func nodeText(n ast.Node) string {
+	// comments attached to declarations (the Doc of `var x int` inside a body, of a field, …) would be printed in
+	// the middle of the text: detach them while printing
+	type saved struct {
+		p **ast.CommentGroup
+		v *ast.CommentGroup
+	}
+	var undo []saved
+	detach := func(p **ast.CommentGroup) {
+		if *p != nil {
+			undo = append(undo, saved{p, *p})
+			*p = nil
+		}
+	}
+	func() {
+		defer func() { _ = recover() }() // synthetic nodes with nil children: print as is
+		inspectDetach(n, detach)
+	}()
+	defer func() {
+		for _, u := range undo {
+			*u.p = u.v
+		}
+	}()
 	var b strings.Builder
 	if err := printer.Fprint(&b, token.NewFileSet(), n); err != nil {
 		return ""
 	}
 	return strings.Join(strings.Fields(b.String()), " ")
+}
+
+func inspectDetach(n ast.Node, detach func(**ast.CommentGroup)) {
+	ast.Inspect(n, func(x ast.Node) bool {
+		switch d := x.(type) {
+		case *ast.GenDecl:
+			detach(&d.Doc)
+		case *ast.ValueSpec:
+			detach(&d.Doc)
+			detach(&d.Comment)
+		case *ast.TypeSpec:
+			detach(&d.Doc)
+			detach(&d.Comment)
+		case *ast.Field:
+			detach(&d.Doc)
+			detach(&d.Comment)
+		case *ast.FuncDecl:
+			detach(&d.Doc)
+		case *ast.ImportSpec:
+			detach(&d.Doc)
+			detach(&d.Comment)
+		}
+		return true
+	})
 }
